@@ -242,6 +242,13 @@ def run_entry(ctx, exe, drv):
     for (ci, li, op, a, b) in diffs:
         case = cases[ci]
         oracle = "!ORACLE" in a or "<no-output" in a
+        start = case[:li + 1]
+        if not oracle:
+            # the first difference is only a model/code disagreement: run the WHOLE case on the
+            # implementation - the property oracle may fire later (e.g. at `end`)
+            fio, frc, _ = ctx.run_lines(exe, ["reset"] + case, ["entry"])
+            if frc != 0 or any("!ORACLE" in l for l in fio):
+                oracle, start = True, list(case)
 
         def still(cand, want_oracle=oracle):
             if not well_formed(cand):
@@ -251,7 +258,7 @@ def run_entry(ctx, exe, drv):
                 return rc != 0 or any("!ORACLE" in l for l in io)
             mo, _, _ = ctx.run_lines(drv, ["reset"] + cand)
             return io != mo
-        small = ctx.shrink(case[:li + 1], still)
+        small = ctx.shrink(start, still)
         io, rc, err = ctx.run_lines(exe, ["reset"] + small, ["entry"])
         mo, _, _ = ctx.run_lines(drv, ["reset"] + small)
         cut = lambda l: l if len(l) < 600 else l[:300] + " ... " + l[-250:]
@@ -290,6 +297,10 @@ def appender_configs(ctx):
         dict(threads=2, ps=32, cap=1024, files=2, rot=1, n=600, slow=300, drain=0),    # rotation every round + backlog
         dict(threads=2, ps=4096, cap=16, files=1, rot=4, n=12),
         dict(threads=1, ps=128, cap=1, files=2, rot=0, n=25),
+        # several logging threads inside discard() at the same time (scratch vectors must be per thread)
+        dict(threads=4, ps=24, cap=64, files=1, rot=0, n=700, discard=100, nosleep=1),
+        dict(threads=4, ps=32, cap=64, files=2, rot=3, n=500, discard=60, nosleep=1),
+        dict(threads=3, ps=64, cap=16, files=1, rot=0, n=400, discard=30),
     ]
     for c in fixed:
         c["seed"] = rng.randrange(1, 1 << 30)
@@ -303,6 +314,9 @@ def appender_configs(ctx):
             c["slow"] = rng.choice([10, 30, 60])
         if rng.random() < 0.5:
             c["drain"] = 0          # close() with entries still queued (possibly a full queue)
+        if rng.random() < 0.35:
+            c["discard"] = rng.choice([10, 50, 90])
+            c["nosleep"] = rng.choice([0, 1])
         cfgs.append(c)
     return ["run " + " ".join("%s=%d" % kv for kv in c.items()) for c in cfgs]
 
@@ -348,7 +362,7 @@ def run_appender(ctx, exe, drv):
     if not close_ok:
         # close() with a backlog wedges on this tree: keep the remaining runs meaningful by draining first
         cfgs = [c.replace(" drain=0", "") for c in cfgs]
-    dist = {"runs": 0, "threads": {}, "entries": 0, "rounds": 0, "rotations": 0, "entries_spanning_two_writev": 0,
+    dist = {"runs": 0, "threads": {}, "entries": 0, "concurrent_discards": 0, "runs_with_discard": 0, "rounds": 0, "rotations": 0, "entries_spanning_two_writev": 0,
             "max_batch": 0, "max_writev_elems": 0, "trace_lines_replayed": 0, "oracle_failures": 0, "divergences": 0,
             "capacities": {}}
     nproc = max(1, min(NPROC, len(cfgs)))
@@ -379,6 +393,8 @@ def run_appender(ctx, exe, drv):
             dist["threads"][cfg["threads"]] = dist["threads"].get(cfg["threads"], 0) + 1
             dist["capacities"][st.get("capacity", "?")] = dist["capacities"].get(st.get("capacity", "?"), 0) + 1
             dist["entries"] += int(st.get("entries", 0))
+            dist["concurrent_discards"] += int(st.get("discards", 0))
+            dist["runs_with_discard"] += 1 if int(st.get("discards", 0)) and int(cfg["threads"]) >= 2 else 0
             dist["rounds"] += int(st.get("rounds", 0))
             dist["rotations"] += int(st.get("rotations", 0))
             dist["entries_spanning_two_writev"] += int(st.get("spans", 0))
@@ -499,6 +515,8 @@ def run(ctx):
             "recorded rounds through App.step; the order of write() tickets is reconstructed from the output (per-thread order is "
             "checked independently by the oracle), so the replay validates batching/chunking/flush/page-return, not queue fairness",
             "close() on a full queue: one fixed schedule per run",
+            "concurrent discard(): native threads + repetition (thousands of overlapping discards per check); thread-locality of its "
+            "scratch vectors is additionally pinned by gen_appender_shapes (discardScratchPerThread)",
         ],
     }
 
